@@ -146,7 +146,9 @@ pub fn run(o: &Opts) -> Report {
                         }
                     }
                     for (d1, m1) in singles {
-                        cases.push((vec![d1], m1, 2));
+                        // the group removals always go through the plugin as well: its dispatch is separate from the typed API's
+                        let mode = if d1.starts_with("remove-all") { 1 } else { 2 };
+                        cases.push((vec![d1], m1, mode));
                     }
                     for (d1, m1) in crate::c04::charge_mutants(code, &j) {
                         cases.push((vec![d1], m1, 2));
